@@ -5,6 +5,7 @@ import (
 	"encoding/json"
 	"fmt"
 	"math/rand"
+	"sort"
 	"strings"
 
 	"0chain.net/core/encryption"
@@ -23,6 +24,7 @@ type call struct {
 	note       string
 	grant      *grantInfo
 	nonceSkew  int64
+	shadow     string // the marker-book line that shadows this transaction (without its trailing `later` / ref tokens)
 }
 
 type alloc struct {
@@ -39,30 +41,31 @@ type vpool struct {
 
 // gstate: what the generator remembers about the history it is building (only to keep most calls valid).
 type gstate struct {
-	r        *rand.Rand
-	x        *world
-	lines    []string
-	seq      int
-	caseTag  string
-	blobbers []int          // client indices registered as blobbers
-	cheap    map[int]bool   // blobbers whose terms fit the free-allocation settings
-	staked   map[[2]int]bool // (staker, blobber)
-	mstaked  map[[2]int]bool
-	allocs   []alloc
-	pools    []vpool
-	assigner map[string]int // registered free-storage assigner name -> key index
-	markerN  int64
-	noncePlan []int64 // fresh marker nonces still to be used, in the order they will be redeemed
-	redeemed  []int64 // nonces of markers that were redeemed
-	wallet   map[int]bool // multisig wallets registered
-	proposal int
-	auths    []int // authorizer indices (zcnsc)
-	miners   []string
+	r          *rand.Rand
+	x          *world
+	lines      []string
+	seq        int
+	caseTag    string
+	blobbers   []int           // client indices registered as blobbers
+	cheap      map[int]bool    // blobbers whose terms fit the free-allocation settings
+	staked     map[[2]int]bool // (staker, blobber)
+	mstaked    map[[2]int]bool
+	allocs     []alloc
+	pools      []vpool
+	assigner   map[string]int // registered free-storage assigner name -> key index
+	markerN    int64
+	replayNext int                // after a re-registration: the next markers are replays of redeemed ones
+	noncePlan  []int64            // fresh marker nonces still to be used, in the order they will be redeemed
+	redeemed   map[string][]int64 // assigner -> nonces of markers that were redeemed
+	wallet     map[int]bool       // multisig wallets registered
+	proposal   int
+	auths      []int // authorizer indices (zcnsc)
+	miners     []string
 }
 
-func (g *gstate) client() int  { return iClient0 + g.r.Intn(nClients) }
-func (g *gstate) rich() int    { return iClient0 + g.r.Intn(nClients-1) }
-func (g *gstate) anyone() int  { return g.r.Intn(nUniverse) }
+func (g *gstate) client() int { return iClient0 + g.r.Intn(nClients) }
+func (g *gstate) rich() int   { return iClient0 + g.r.Intn(nClients-1) }
+func (g *gstate) anyone() int { return g.r.Intn(nUniverse) }
 func (g *gstate) coin(max uint64) uint64 {
 	switch g.r.Intn(12) {
 	case 0:
@@ -111,11 +114,28 @@ func (g *gstate) emit(c call) (status, hash, output string) {
 			p.Ext[fmt.Sprint(x.ext[id])] = id
 		}
 	}
+	dryErr := x.lastDryErr
+	status = x.exec(t)
+	shadow := ""
+	if c.shadow != "" && !(dryErr == "" && status != "success" && strings.HasPrefix(c.shadow, "fsa")) {
+		shadow = c.shadow
+		if strings.HasPrefix(shadow, "frm") {
+			later := "0"
+			if status == "success" {
+				later = "1"
+			}
+			shadow += " " + later
+		}
+		shadow += " " + p.Hash[:12]
+		p.Sh = true
+	}
 	line := fmt.Sprintf("txn %s %d %d 1 %d %d %d %s %s", c.typ, c.sender, c.to, c.value, c.fee, nonce, res, encPayload(p))
 	g.lines = append(g.lines, line)
 	pl, _ := parseTxn(line)
-	status = x.exec(t)
 	x.free.observe(pl, status, x)
+	if shadow != "" {
+		g.lines = append(g.lines, shadow)
+	}
 	key := fmt.Sprintf("%d.%s:%s", c.to, c.fn, status)
 	if c.typ != "sc" {
 		key = c.typ + ":" + status
@@ -357,29 +377,19 @@ func (g *gstate) freeStorage() {
 		}
 		return
 	}
-	if len(g.assigner) == 0 || g.r.Intn(10) == 0 {
-		k := g.r.Intn(2)
-		name := fmt.Sprintf("assigner%d", k)
-		who := iOwner
-		note := ""
-		if g.r.Intn(6) == 0 {
-			who, note = g.client(), "assigner-added-by-non-owner"
-		}
-		in := j(map[string]interface{}{"name": name, "public_key": keys.signer[k].pk, "individual_limit": 20.0, "total_limit": 5000.0})
-		st, _, _ := g.emit(call{typ: "sc", sender: who, to: iStorage, fn: "add_free_storage_assigner", fee: g.fee(), in: in, note: note})
-		if st == "success" {
-			g.assigner[name] = k
-		}
+	if len(g.assigner) == 0 || g.r.Intn(7) == 0 {
+		g.registerAssigner()
 		return
 	}
 	// a marker: mostly valid, sometimes forged in one specific way
-	var name string
-	var key int
-	for n, k := range g.assigner {
-		if name == "" || n < name {
-			name, key = n, k
-		}
+	var names []string
+	for n := range g.assigner {
+		names = append(names, n)
 	}
+	sort.Strings(names)
+	name := names[g.r.Intn(len(names))]
+	key := g.assigner[name]
+	signedFor := name // the replays are replays of THIS assigner's markers
 	recipient := g.client()
 	sender := recipient
 	// nonces: batches of fresh nonces redeemed in DECREASING or shuffled order (the contract keeps the redeemed
@@ -399,8 +409,11 @@ func (g *gstate) freeStorage() {
 	signKey := key
 	tamper := ""
 	var nonce int64
-	if len(g.redeemed) > 0 && g.r.Intn(3) == 0 {
-		tamper, nonce = "replayed-nonce", g.redeemed[g.r.Intn(len(g.redeemed))]
+	if len(g.redeemed[signedFor]) > 0 && (g.r.Intn(3) == 0 || g.replayNext > 0) {
+		if g.replayNext > 0 {
+			g.replayNext--
+		}
+		tamper, nonce = "replayed-nonce", g.redeemed[signedFor][g.r.Intn(len(g.redeemed[signedFor]))]
 	} else {
 		nonce, g.noncePlan = g.noncePlan[0], g.noncePlan[1:]
 		switch g.r.Intn(16) {
@@ -426,17 +439,22 @@ func (g *gstate) freeStorage() {
 	}
 	marker := j(map[string]interface{}{"assigner": name, "recipient": x.idOf(recipient), "free_tokens": tokens, "nonce": nonce, "signature": sig, "blobbers": ids})
 	in := j(map[string]interface{}{"recipient_public_key": ucl[recipient].PublicKey, "marker": marker})
+	intact := 1
+	if tamper == "amount-changed-after-signing" {
+		intact = 0
+	}
 	st, _, _ := g.emit(call{typ: "sc", sender: sender, to: iStorage, fn: "free_allocation_request", fee: g.fee(), in: in, note: tamper,
-		grant: &grantInfo{Assigner: name, SignerKey: signKey, Tokens: uint64(tokens * 1e10), Nonce: nonce, Recipient: recipient, TamperedAt: tamper}})
+		shadow: frmShadow(name, signKey, intact, sender == recipient, tokens, nonce),
+		grant:  &grantInfo{Assigner: name, SignerKey: signKey, Tokens: uint64(tokens * 1e10), Nonce: nonce, Recipient: recipient, TamperedAt: tamper}})
 	if st == "success" && tamper != "replayed-nonce" {
-		g.redeemed = append(g.redeemed, nonce)
+		g.redeemed[signedFor] = append(g.redeemed[signedFor], nonce)
 	}
 }
 
 // ---------------------------------------------------------------------------------------------- cases
 
 func newG(r *rand.Rand, tag string, feeOn, fork bool) *gstate {
-	g := &gstate{r: r, caseTag: tag, cheap: map[int]bool{}, staked: map[[2]int]bool{}, mstaked: map[[2]int]bool{}, assigner: map[string]int{}, wallet: map[int]bool{}}
+	g := &gstate{r: r, caseTag: tag, cheap: map[int]bool{}, staked: map[[2]int]bool{}, mstaked: map[[2]int]bool{}, assigner: map[string]int{}, redeemed: map[string][]int64{}, wallet: map[int]bool{}}
 	g.x = newWorld(feeOn, fork)
 	g.lines = []string{initLine(feeOn, fork)}
 	return g
@@ -499,6 +517,77 @@ func (g *gstate) validMarker(nonce int64, recipient int, note string) string {
 	sig := keys.signer[key].sign(markerMessage(x.idOf(recipient), tokens, nonce, ids))
 	marker := j(map[string]interface{}{"assigner": name, "recipient": x.idOf(recipient), "free_tokens": tokens, "nonce": nonce, "signature": sig, "blobbers": ids})
 	in := j(map[string]interface{}{"recipient_public_key": ucl[recipient].PublicKey, "marker": marker})
-	st, _, _ := g.emit(call{typ: "sc", sender: recipient, to: iStorage, fn: "free_allocation_request", fee: 1e8, in: in, note: note})
+	st, _, _ := g.emit(call{typ: "sc", sender: recipient, to: iStorage, fn: "free_allocation_request", fee: 1e8, in: in, note: note,
+		shadow: frmShadow(name, key, 1, true, tokens, nonce)})
 	return st
+}
+
+func assignerNo(name string) int {
+	switch name {
+	case "assigner0":
+		return 0
+	case "assigner1":
+		return 1
+	}
+	return 9
+}
+
+func frmShadow(name string, signKey, intact int, recipientOk bool, tokens float64, nonce int64) string {
+	r := 0
+	if recipientOk {
+		r = 1
+	}
+	coins, _ := tokensToCoin(tokens)
+	return fmt.Sprintf("frm %d %d %d %d %d %d", assignerNo(name), signKey, intact, r, coins, nonce)
+}
+
+// registerAssigner: first registration, or RE-registration of an existing assigner by the owner with the same or
+// other limits (total and individual, below and above the configured maxima) and the same or another key, or an
+// attempt by somebody who is not the owner. After a re-registration the next markers are replays.
+func (g *gstate) registerAssigner() bool {
+	return g.register(g.r.Intn(2), -1, -1, -1, g.r.Intn(6) == 0)
+}
+
+func (g *gstate) register(k, key int, individual, total float64, byStranger bool) bool {
+	name := fmt.Sprintf("assigner%d", k)
+	oldKey, exists := g.assigner[name]
+	if key < 0 {
+		key = k
+		if exists {
+			key = oldKey
+			if g.r.Intn(4) == 0 {
+				key = 1 - oldKey // the owner replaces the assigner's key
+			}
+		}
+	}
+	if individual < 0 {
+		individual = []float64{20, 20, 10, 30, 200}[g.r.Intn(5)]
+		if !exists {
+			individual = 20
+		}
+	}
+	if total < 0 {
+		total = []float64{5000, 5000, 4000, 6000, 8, 20000}[g.r.Intn(6)]
+		if !exists {
+			total = 5000
+		}
+	}
+	who, note, owner := iOwner, "", 1
+	if byStranger {
+		who, note, owner = g.client(), "assigner-added-by-non-owner", 0
+	}
+	if exists && !byStranger {
+		note = fmt.Sprintf("re-registration individual=%v total=%v key=%d", individual, total, key)
+	}
+	in := j(map[string]interface{}{"name": name, "public_key": keys.signer[key].pk, "individual_limit": individual, "total_limit": total})
+	st, _, _ := g.emit(call{typ: "sc", sender: who, to: iStorage, fn: "add_free_storage_assigner", fee: g.fee(), in: in, note: note,
+		shadow: fmt.Sprintf("fsa %d %d %d %d %d", k, key, uint64(individual*1e10), uint64(total*1e10), owner)})
+	if st == "success" {
+		g.assigner[name] = key
+		if exists {
+			g.replayNext = 1 + g.r.Intn(3)
+		}
+		return true
+	}
+	return false
 }
